@@ -30,8 +30,10 @@ def lit(x):
 
 def rnd_double(rng):
     k = rng.random()
-    if k < 0.4:
+    if k < 0.12:
         return struct.unpack(">d", struct.pack(">Q", rng.getrandbits(64)))[0]
+    if k < 0.4:   # random mantissa, moderate exponent (huge exponents cost ~1 s each in the VM's bignum arithmetic)
+        return struct.unpack(">d", struct.pack(">Q", (rng.getrandbits(52) | (rng.randint(1023 - 70, 1023 + 70) << 52) | (rng.getrandbits(1) << 63))))[0]
     if k < 0.6:
         return rng.uniform(-10, 10)
     if k < 0.8:
@@ -110,7 +112,7 @@ class PROP(PropCheck):
             if ar == 1:
                 for x in SPECIAL:
                     out.append(self.math_case(name, [x]))
-                for _ in range((8 if quick else 400) * scale):
+                for _ in range((5 if quick else 400) * scale):
                     out.append(self.math_case(name, [rnd_double(rng)]))
             else:
                 for _ in range((40 if quick else 1500) * scale):
@@ -122,8 +124,8 @@ class PROP(PropCheck):
             r = (v[1] if math.isnan(r) else (r if math.isnan(v[1]) else max(r, v[1])))
             r = (v[2] if math.isnan(r) else (r if math.isnan(v[2]) else min(r, v[2])))
             out.append(Case(src, meta={"clamp": v}))
-        for _ in range((150 if quick else 20000) * scale):
-            out.append(self.text_case([rnd_double(rng) for _ in range(4)]))
+        for _ in range((100 if quick else 20000) * scale):
+            out.append(self.text_case([rnd_double(rng) for _ in range(3)]))
         for e in range(-8, 23):
             out.append(self.text_case([10.0 ** e, 2.0 ** e, float(3 * 10 ** max(e, 0))]))
         for _ in range((100 if quick else 10000) * scale):
